@@ -88,8 +88,8 @@ pub fn scenarios(prop: &str, thorough: bool) -> Vec<Scenario> {
     match prop {
         "C13" => {
             for p in ["", "a"] {
-                for variant in 0..6 {
-                    if variant >= 4 && p.is_empty() {
+                for variant in 0..7 {
+                    if (variant == 4 || variant == 5) && p.is_empty() {
                         continue;
                     }
                     let mut u = vec![UOp::Reparse(0, p)];
@@ -97,6 +97,9 @@ pub fn scenarios(prop: &str, thorough: bool) -> Vec<Scenario> {
                     match variant {
                         0 => {}
                         1 => inj.push((true, vec![IOp::Push(it(1, "ab"))])),
+                        // a writer using the batch call: its notification, too, must follow the
+                        // publication of every item of the batch
+                        6 => inj.push((true, vec![IOp::Extend(vec![it(5, "a"), it(6, "ab")])])),
                         2 => {
                             u.push(UOp::Tick);
                             u.push(UOp::Reparse(0, if p.is_empty() { "b" } else { "ab" }));
